@@ -1,7 +1,9 @@
 package main
 
 import (
+	"bytes"
 	"fmt"
+	"sort"
 	"sync"
 	"time"
 
@@ -33,7 +35,7 @@ type c05Hist struct {
 	t     *chainlab.Tree
 	a     *chainlab.Auditor
 	acc   map[types.TransactionID]*accepted
-	all   map[types.TransactionID]*accepted // every set member ever accepted (ancestor lookup)
+	all   map[types.TransactionID]*accepted     // every set member ever accepted (ancestor lookup)
 	maker map[types.Hash256]types.TransactionID // element id -> accepted txn creating it
 	conf  map[*chainlab.Node]map[types.TransactionID]bool
 	step  int
@@ -111,12 +113,76 @@ func (h *c05Hist) justified(a *accepted, touched map[types.Hash256]bool, tip *ch
 func (h *c05Hist) check(touched map[types.Hash256]bool) {
 	r, cm, tip := h.r, h.a.N.CM, h.a.Tip
 	var pool poolSnap
+	// the first pool call after the step (possibly a tip change) varies: every
+	// accessor has to bring the pool up to date by itself
+	type probe struct {
+		id    types.TransactionID
+		v2    bool
+		found bool
+		got   types.TransactionID
+	}
+	var probes []probe
+	var firstV2 []types.TransactionID
+	first := h.t.Rng.IntN(6)
+	if p := mon.Guard(func() {
+		switch first {
+		case 1:
+			for _, x := range cm.V2PoolTransactions() {
+				firstV2 = append(firstV2, x.ID())
+			}
+		case 2, 3:
+			ids := make([]types.TransactionID, 0, len(h.all))
+			for id := range h.all {
+				ids = append(ids, id)
+			}
+			sort.Slice(ids, func(i, j int) bool { return bytes.Compare(ids[i][:], ids[j][:]) < 0 })
+			for n := 0; n < 6 && len(ids) > 0; n++ {
+				id := ids[h.t.Rng.IntN(len(ids))]
+				a := h.all[id]
+				if a.v2 != nil {
+					x, ok := cm.V2PoolTransaction(id)
+					probes = append(probes, probe{id, true, ok, x.ID()})
+				} else {
+					x, ok := cm.PoolTransaction(id)
+					probes = append(probes, probe{id, false, ok, x.ID()})
+				}
+			}
+		case 4:
+			cm.RecommendedFee()
+		}
+	}); p != nil {
+		r.Violation("pool-query-panic", fmt.Sprint("pool query panicked: ", p), h.cs, nil)
+		h.bad = true
+		return
+	}
+	r.Count(fmt.Sprintf("first_pool_call_after_step:%d", first), 1)
 	if p := mon.Guard(func() { pool = snapPool(cm) }); p != nil {
 		r.Violation("pool-query-panic", fmt.Sprint("pool query panicked: ", p), h.cs, nil)
 		h.bad = true
 		return
 	}
 	r.Count("pool_audits", 1)
+	for _, pr := range probes {
+		kind, in := pool.ids[pr.id]
+		want := in && (kind == "v2") == pr.v2
+		if pr.found != want || (pr.found && pr.got != pr.id) {
+			r.Violation("first-lookup-disagrees-with-listing", fmt.Sprintf("a lookup by id made as the first pool call after a step returned found=%v (id %v) but the pool listing taken right afterwards says pooled=%v", pr.found, pr.got, want), h.cs, pr.id.String())
+			h.bad = true
+			return
+		}
+		r.Count("first_lookups_checked", 1)
+	}
+	if first == 1 {
+		same := len(firstV2) == len(pool.v2)
+		for i := 0; same && i < len(firstV2); i++ {
+			same = firstV2[i] == pool.v2[i].ID()
+		}
+		if !same {
+			r.Violation("first-listing-disagrees", "V2PoolTransactions as the first pool call after a step differs from the listing taken right afterwards", h.cs, nil)
+			h.bad = true
+			return
+		}
+	}
 	r.Count("pool_txns_validated", len(pool.v1)+len(pool.v2))
 	pb, ok := tip.L.PoolBuilder(h.t.Rng, pool.v1, pool.v2)
 	if !ok {
